@@ -61,6 +61,10 @@ pub struct OutSpec {
     /// operator labels on the dependency slice of this output (generated programs; signatures)
     #[serde(default)]
     pub slice: Vec<String>,
+    /// `across_ticks(|s| s.<stream op>())` of a per-item pipeline of one input: the concatenation
+    /// of the per-tick outputs does not depend on the batching (C30 generated oracle)
+    #[serde(default)]
+    pub concat: bool,
 }
 
 #[derive(Clone, Debug, Serialize, Deserialize)]
